@@ -20,6 +20,7 @@ var c09Builders = []string{
 	"&cv = 1 + 2", "&cd = d6 + 1", "&cdef = d + 1", "&ca = this.base + 1; &ca.base = 10", "&cn = a + 1", "&cf = f(2)", "&ce = 2d + cn",
 	"xs.push(4)", "dd.z = [1]", "dd['q'] = {'w': 1}", "xs[0] = 'first'", "ys.push(xs[1])", "ee.f = 1.25", "s = s + '!'", "t = `a{a}b`", "u = \"q\\\"uo'te\"", "w = '\\n\\t\\\\'",
 	"arr2 = [xs[0], [xs[1]]]", "mix = [f, &cv, dd.k]", "fd = {'fn': f, 'cv': &cv}", "e1 = E5 + 1", "func ce() { E3 * 2 }", "&cx = E2 + a",
+	"func fam() { b2 + f + 2a8 + 2c8 }", "&cfam = p1 + f + 3a9", "func fmix() { 6a10 + 100 }", "&cmix = 2c8 + 200", "func fbit() { 6 | 1 }", "func fnd() { 2d + 1 }",
 	"uni = '中文🎲é'", "empty = ''", "zero = 0", "t2 = true", "lng = [1..20]", "dup = [1]*5",
 }
 
@@ -27,6 +28,7 @@ var c09FollowUps = []string{
 	"a", "a + 1", "b * 2", "s", "s + 'x'", "n ?? 5", "xs", "xs[0]", "xs[-1]", "xs.len()", "xs.sum()", "xs.push(9); xs", "xs.pop()", "ys", "dd", "dd.k", "dd['j']", "dd.keys()", "dd.len()", "dd.new = 3; dd",
 	"nest", "nest[1].a", "nest[0][1][1]", "big", "big + 0", "fl", "sm + z", "f(1)", "g()", "h(1, 2)", "r2()", "dflt()", "fib(6)", "cv", "cd", "cdef", "ca", "&ca.base", "&ca.base = 20; ca", "cn", "cf", "ce",
 	"t", "u", "w", "arr2", "mix", "mix[0](3)", "fd.fn(4)", "fd.cv", "e1", "ce()", "cx", "uni", "empty", "toStr(dd)", "toStr(nest)", "repr(s)", "typeId(f)", "typeId(&cv)", "&cv", "lng.sum()", "dup", "a = a + 1; a", "xs == xs", "dd == dd", "xs[0:2]", "s[1:3]", "`{xs}{dd}{cv}`", "f", "&cd", "cv.compute()", "dir(xs)",
+	"fam()", "cfam", "fmix()", "cmix", "fbit()", "fnd()",
 	"hk", "hk.keys()", "hs", "hn", "toStr(hk)", "&hc.at", "hf()", "ht", "hs + hs", "hk == hk",
 }
 
@@ -206,6 +208,31 @@ func c09Case(w *fw.W, idx int, r *fw.Rand) {
 	if !json.Valid(snap) {
 		w.Violate(idx, "json", "json|invalid-json", desc, "ToJSON returned invalid JSON: "+trunc(string(snap), 300), nil)
 		return
+	}
+	if r.P(1, 4) {
+		// another process-mate restores the same snapshot first, under a different configuration
+		// (other dice families, no custom dice, other default sides), and uses everything in it:
+		// whatever it compiles or caches must stay its own
+		fc := Cfg{WoD: !cfg.WoD, CoC: !cfg.CoC, Fate: !cfg.Fate, DC: !cfg.DC, NoNDice: true, NoBitwise: true, OpLimit: 30000, Seed: 99, DefSide: "7"}
+		foreign := fc.NewVM()
+		fw.Guard(func() {
+			if json.Unmarshal(snap, foreign.Attrs) == nil {
+				for _, f := range c09FollowUps {
+					_ = foreign.Run(f)
+				}
+				for _, f := range follow {
+					_ = foreign.Run(f)
+				}
+				foreign.Attrs.Range(func(k string, v *ds.VMValue) bool {
+					if v != nil && (v.TypeId == ds.VMTypeComputedValue || v.TypeId == ds.VMTypeFunction) {
+						_ = foreign.Run(k)
+						_ = foreign.Run(k + "()")
+					}
+					return true
+				})
+			}
+		})
+		w.Count("foreign_restores_first", 1)
 	}
 	b := c09NewVM(cfg)
 	usedTarget := r.P(1, 3)
